@@ -478,6 +478,7 @@ func main() {
 	}
 	convCases(run)
 	witnessCases(run)
+	matrixCases(run)
 	srv.Stop()
 	run.Finish("check_all")
 }
